@@ -94,12 +94,25 @@ macro_rules! one {
                 }
             }
         }
+        // ... and a look-alike IMMEDIATELY before every construction of the observed value
+        let swapc: String = s.chars().map(|c| if c.is_ascii_lowercase() { c.to_ascii_uppercase() } else { c.to_ascii_lowercase() }).collect();
+        let looks = [s.to_uppercase(), s.to_lowercase(), swapc];
+        let prime = |k: usize| {
+            let d = &looks[k % 3];
+            if *d != s {
+                let _ = $t::new(d.clone());
+            }
+        };
         let json = serde_json::to_string(&s).unwrap();
         // three deserialisation paths: borrowed text (visit_borrowed_str / visit_str), an owned
         // serde_json::Value (visit_string) and a reader (transient visit_str)
+        prime(0);
         let de: Result<$t, _> = serde_json::from_str(&json);
+        prime(1);
         let dev: Result<$t, _> = serde_json::from_value(serde_json::Value::String(s.clone()));
+        prime(2);
         let der: Result<$t, _> = serde_json::from_reader(json.as_bytes());
+        prime(s.len());
         match $t::new(s.clone()) {
             Err(_) => format!(
                 "invalid de={} dev={} der={}",
